@@ -828,6 +828,9 @@ def uncollapse_unary_chains(tree, **params):
     Output options: none
     """
     tree = _uncollapse_unary_chains(tree)
+    # unary nodes may have been inserted above the given node
+    while tree.parent is not None:
+        tree = tree.parent
     return tree
 
 
